@@ -628,7 +628,7 @@ def r7_tolerance_table(ctx):
 
 RULES = [
     ("C10.R7", r7_tolerance_table, 9, False),
-    ("C10.R1", r1_panics, 30, False),
+    ("C10.R1", r1_panics, 20, False),
     ("C10.R2", r2_error_discipline, 100, False),
     ("C10.R3", r3_loops, 8, False),
     ("C10.R5", r5_mnt_id_degradation, 1, False),
